@@ -153,12 +153,11 @@ theorem process_then {q q1 q2 : Parser} (hq : Ready q) {X Y : List Nat} (e1 : q.
 
 /-- **C15**: drawing the lines of `rows_formatted(0, cols)` by the protocol, then `cursor_state_formatted()` and
 `attributes_formatted()`, on a receiver whose lines are blank (a new parser, a cleared terminal) reproduces the
-source screen: cells, wrap flags, cursor, cursor visibility, pen  [cursor inside its line] -/
+source screen: cells, wrap flags, cursor (the pending-wrap column included), cursor visibility, pen -/
 theorem rows_protocol_reproduces (hW : WOk W) {q : Parser} (hq : RecvOk W q)
     (hqoff : (rsOf q.ws).g.scrollbackOffset = 0)
     (hblank : ∀ r ∈ (rsOf q.ws).g.rows, BlankRow (rsOf q.ws).g.size.cols r)
-    (S : Screen) (hS : SrcScreen W S) (hsz : S.cur.size = (rsOf q.ws).g.size) (hgs : S.grid.size = S.cur.size)
-    (hin : S.cur.pos.col < S.cur.size.cols) :
+    (S : Screen) (hS : SrcScreen W S) (hsz : S.cur.size = (rsOf q.ws).g.size) (hgs : S.grid.size = S.cur.size) :
     ∃ rb cs q', S.rowsFormatted 0 S.cur.size.cols = .ok rb ∧ S.cursorStateFormatted = .ok cs ∧
       q.process W cb (protocolStream S rb cs) = .ok q' ∧ Ready q' ∧ Shows q'.screen S := by
   -- the start: every line blank
@@ -182,14 +181,16 @@ theorem rows_protocol_reproduces (hW : WOk W) {q : Parser} (hq : RecvOk W q)
     rw [w2, rsOf_hide, w1, rsOf_withRS]
   have hcols : R'.g.size.cols = S.cur.size.cols := hinv'.hcols
   have hrows : R'.g.size.rows = S.cur.size.rows := by rw [hinv'.nrows, hS.alloc]
-  have hu := hinv'.canvas.cols_u16
-  have hru := hinv'.canvas.rows_u16
-  have hsp := setPos_eq hinv'.canvas S.cur.pos (by rw [hrows]; exact hS.cur_row) (by rw [hcols]; exact hin)
-  obtain ⟨p3, e3, w3, r3⟩ := step_moveTo W cb S.cur.pos (by have := hS.cur_row; omega) (by omega) p2 r2
-    { g := withPos R'.g S.cur.pos, pen := Attrs.default, saved := R'.saved } (by
-      rw [hrs2]
-      simp only [hsp, ok_bind]
-      rfl)
+  have hinv2 : RowsInv S.cur.rows S.cur.size.cols S.cur.rows.length false pp' (rsOf p2.ws) := by
+    have := rowsInv_frame hinv' (rsOf p2.ws) (by rw [hrs2]) (by rw [hrs2]) (by rw [hrs2]) (by rw [hrs2]) (by rw [hrs2])
+    rw [hrs2] at this ⊢
+    rw [← hinv'.pos]
+    exact this
+  obtain ⟨cb3, ecur, R3, hem3, hpen3, hinv3, hoff3⟩ := cursor_fixup (cb := cb) hW r2 S.cur hS.rows hS.alloc hS.cur_row hS.cur_col
+    (emitted_nil W cb p2 r2) (show (rsOf p2.ws).pen = Attrs.default by rw [hrs2]) wf_default hinv2 none
+    (fun p hp => by simp at hp)
+  simp only [List.nil_append] at hem3
+  obtain ⟨p3, e3, w3, r3⟩ := hem3
   -- the pen
   obtain ⟨p4, e4, w4, r4⟩ := process_attributes_formatted W cb p3 S hS.pen_wf r3
   -- the emitted strings
@@ -197,12 +198,11 @@ theorem rows_protocol_reproduces (hW : WOk W) {q : Parser} (hq : RecvOk W q)
   have erf : S.rowsFormatted 0 S.cur.size.cols = .ok rb := by
     simp only [Screen.rowsFormatted, hvis, ok_bind, hgs, beq_self_eq_true, Bool.and_self]
     exact erb
-  have hcond : (none != some S.cur.pos && decide (S.cur.pos.col ≥ S.cur.size.cols)) = false := by
-    have : ¬ S.cur.pos.col ≥ S.cur.size.cols := by omega
-    simp [this]
-  have ecs : S.cursorStateFormatted = .ok (Term.hideCursor S.hideCursor ++ Term.moveTo S.cur.pos) := by
-    simp only [Screen.cursorStateFormatted, Grid.writeCursorPositionFormatted, hcond, Bool.false_eq_true, ↓reduceIte,
-      Grid.moveOpt, pure_eq_ok, ok_bind]
+  have ecur' : S.cur.writeCursorPositionFormatted none none = .ok cb3 := by
+    have : S.cur.writeCursorPositionFormatted none none = S.cur.writeCursorPositionFormatted none (some Attrs.default) := rfl
+    rw [this]; exact ecur
+  have ecs : S.cursorStateFormatted = .ok (Term.hideCursor S.hideCursor ++ cb3) := by
+    simp only [Screen.cursorStateFormatted, ecur', ok_bind, pure_eq_ok]
   refine ⟨rb, _, p4, erf, ecs, ?_, r4, ?_⟩
   · unfold protocolStream
     have s1 := process_then (cb := cb) hq.ready e1 r1 e2
@@ -210,26 +210,26 @@ theorem rows_protocol_reproduces (hW : WOk W) {q : Parser} (hq : RecvOk W q)
     have s3 := process_then (cb := cb) hq.ready s2 r3 e4
     simpa [List.append_assoc] using s3
   · -- what the receiver shows
-    have hcur4 : p4.screen.cur = withPos R'.g S.cur.pos := by
+    have hcur4 : p4.screen.cur = R3.g := by
       show p4.ws.screen.cur = _
       rw [w4]
-      have : p3.ws.screen.cur = withPos R'.g S.cur.pos := by
+      have : p3.ws.screen.cur = R3.g := by
         rw [w3]
-        have := rsOf_withRS p2.ws { g := withPos R'.g S.cur.pos, pen := Attrs.default, saved := R'.saved }
-        simp only [rsOf, RS.mk.injEq] at this
-        exact this.1
+        have := rsOf_withRS p2.ws R3
+        exact congrArg RS.g this
       exact this
-    obtain ⟨hc, hwr, hvw⟩ := rows_shown hinv'
+    obtain ⟨hc, hwr, hvw⟩ := rows_shown hinv3
+    have hcols3 : R3.g.size.cols = S.cur.size.cols := hinv3.hcols
+    have hrows3 : R3.g.size.rows = S.cur.size.rows := by rw [hinv3.nrows, hS.alloc]
     refine ⟨?_, ?_, ?_, ?_, ?_, ?_, ?_, ?_⟩
     · rw [hcur4]
-      cases hsg : R'.g.size; cases hss : S.cur.size
-      simp only [hsg, hss] at hcols hrows ⊢
-      simp only [withPos, hsg]
-      rw [hcols, hrows]
+      cases hsg : R3.g.size; cases hss : S.cur.size
+      simp only [hsg, hss] at hcols3 hrows3 ⊢
+      rw [hcols3, hrows3]
     · rw [hcur4]; exact hc
     · rw [hcur4]; exact hvw
     · rw [hcur4]; exact hwr
-    · rw [hcur4]; rfl
+    · rw [hcur4]; exact hinv3.pos
     · show p4.ws.screen.hideCursor = S.hideCursor
       rw [w4, w3, w2]
       simp only [WS.modAttrs, withRS, Screen.setCur]
@@ -237,6 +237,8 @@ theorem rows_protocol_reproduces (hW : WOk W) {q : Parser} (hq : RecvOk W q)
     · show p4.ws.screen.attrs = S.attrs
       rw [w4]; rfl
     · rw [hcur4]
+      show R3.g.scrollbackOffset = 0
+      rw [hoff3, hrs2]
       show R'.g.scrollbackOffset = 0
       rw [hoff']; exact hqoff
 
@@ -254,7 +256,7 @@ theorem new_blank (rows cols sb : Nat) :
 
 /-- **C15 on a new parser** -/
 theorem rows_protocol_fresh (hW : WOk W) (S : Screen) (hinv : emitInvB W S = true) (hoff : S.cur.scrollbackOffset = 0)
-    (hin : S.cur.pos.col < S.cur.size.cols) (sb : Nat) :
+    (sb : Nat) :
     ∃ q rb cs q', Parser.new S.cur.size.rows S.cur.size.cols sb = .ok q ∧
       S.rowsFormatted 0 S.cur.size.cols = .ok rb ∧ S.cursorStateFormatted = .ok cs ∧
       q.process W cb (protocolStream S rb cs) = .ok q' ∧ Shows q'.screen S := by
@@ -274,7 +276,7 @@ theorem rows_protocol_fresh (hW : WOk W) (S : Screen) (hinv : emitInvB W S = tru
     simp only [Parser.new, C13.new_eq _ _ _ hcg.rows_pos, ok_bind, pure_eq_ok, Except.ok.injEq] at enew
     exact enew.symm
   obtain ⟨rb, cs, q', e1, e2, e3, _, hsh⟩ := rows_protocol_reproduces (cb := cb) hW hq hqoff (by
-      rw [hqsz]; subst hqeq; exact new_blank _ _ _) S hS (by rw [hqsz]) hgs hin
+      rw [hqsz]; subst hqeq; exact new_blank _ _ _) S hS (by rw [hqsz]) hgs
   exact ⟨q, rb, cs, q', enew, e1, e2, e3, hsh⟩
 
 end Vt.C15
